@@ -134,7 +134,7 @@ Fixpoint vll_eqb (a b : list (list value)) : bool :=
 
 (* ---- the documented meaning of the keywords and operators (docs/atom_selection.rst), as a table check:
    every documented spelling must be present with its documented meaning; additional aliases are allowed *)
-Require Import MD.Select.Reference.
+Require Import MD.Select.Reference MD.Select.ResidueReference.
 
 Definition field_eqb (a b : field) : bool :=
   match a, b with
@@ -156,6 +156,20 @@ Definition binsem_eqb (a b : binsem) : bool :=
   | _, _ => false
   end.
 
+Definition opt_str_eqb (a b : option string) : bool :=
+  match a, b with
+  | Some x, Some y => String.eqb x y
+  | None, None => true
+  | _, _ => false
+  end.
+
+(* every documented water name is a water name, every reference protein residue is one with the same one-letter
+   code (entries may be added, never lost or changed) *)
+Definition residues_documented (cfg : config) : bool :=
+  forallb (fun w => mem_str w (water_names cfg)) ref_water_names
+  && forallb (fun p => match assoc (fst p) (amino_codes cfg) with Some c => opt_str_eqb c (snd p) | None => false end)
+       ref_amino_codes.
+
 Definition documented_meaning (cfg : config) : bool :=
   forallb (fun p => match assoc (fst p) (sel_kws cfg) with Some f => field_eqb f (snd p) | None => false end) ref_sel_kws
   && forallb (fun p => match assoc (fst p) (bin_sem cfg) with Some b => binsem_eqb b (snd p) | None => false end) ref_bin_sem
@@ -164,7 +178,8 @@ Definition documented_meaning (cfg : config) : bool :=
   && forallb (fun o => mem_str o (flat_map (fun l => match lv_kind l with KRegex => lv_ops l | _ => [] end) (levels cfg)))
        ["=~"]
   && forallb (fun p => mem_str (fst p) (flat_map (fun l => match lv_kind l with KBinary => lv_ops l | _ => [] end) (levels cfg)))
-       ref_bin_sem.
+       ref_bin_sem
+  && residues_documented cfg.
 
 (* the tables of a configuration are literally the as-found reference tables *)
 Fixpoint list_eqb {A} (eqb : A -> A -> bool) (a b : list A) : bool :=
@@ -180,15 +195,16 @@ Definition level_eqb (a b : level) : bool :=
 Definition tables_as_found (cfg : config) : bool :=
   list_eqb (fun p q => String.eqb (fst p) (fst q) && field_eqb (snd p) (snd q)) (sel_kws cfg) ref_sel_kws
   && list_eqb level_eqb (levels cfg) ref_levels
-  && list_eqb (fun p q => String.eqb (fst p) (fst q) && binsem_eqb (snd p) (snd q)) (bin_sem cfg) ref_bin_sem.
+  && list_eqb (fun p q => String.eqb (fst p) (fst q) && binsem_eqb (snd p) (snd q)) (bin_sem cfg) ref_bin_sem
+  && residues_documented cfg.
 
 Definition levels_as_found (cfg : config) : bool := list_eqb level_eqb (levels cfg) ref_levels.
 
-(* the configuration "as documented": reference keyword and operator MEANINGS; the level structure (which is not
-   documented) and the residue tables of cfg *)
+(* the configuration "as documented": reference keyword and operator MEANINGS and reference residue tables; the level
+   structure (which is not documented) of cfg *)
 Definition documented (cfg : config) : config :=
   {| sel_kws := ref_sel_kws; levels := levels cfg; bin_sem := ref_bin_sem; py_kwlist := py_kwlist cfg;
-     amino_codes := amino_codes cfg; water_names := water_names cfg |}.
+     amino_codes := ref_amino_codes; water_names := ref_water_names |}.
 
 (* code 16: differs from the documented tables under both operator orders and both single-literal tests *)
 Definition doc_code (cfg : config) (topos : list (list atom)) (c : nat * string * outcome) : nat :=
